@@ -140,6 +140,84 @@ pub fn call(name: &str, args: &[String]) -> Value {
             });
             json!({"frames_hex": crate::hex(&all), "expected": expected, "stream_errors": errs})
         }
+        "xml_text_sweep" => {
+            // byte level of the XML codec, natively and exhaustively over short texts (validation, not solver-decided):
+            // (1) decode <a>t</a>: the exact characters, or refusal when t contains '<' or '&';
+            // (2) encode t: well-formed character data (no raw '<', '&' only as one of the 5 entities, no raw '>') that decodes back to t
+            use s3s::xml::{DeserializeContent, Deserializer, Serializer};
+            let alpha: &[u8] = b"x \t\n>&<]\"'";
+            let mut texts: Vec<Vec<u8>> = vec![vec![]];
+            let mut frontier: Vec<Vec<u8>> = vec![vec![]];
+            for _ in 0..3 {
+                let mut next = vec![];
+                for t in &frontier {
+                    for &c in alpha {
+                        let mut u = t.clone();
+                        u.push(c);
+                        next.push(u);
+                    }
+                }
+                texts.extend(next.iter().cloned());
+                frontier = next;
+            }
+            let dec = |doc: &[u8]| -> Result<String, String> {
+                let mut d = Deserializer::new(doc);
+                let r = d.named_element("a", String::deserialize_content).map_err(|e| format!("{e:?}"))?;
+                d.expect_eof().map_err(|e| format!("eof: {e:?}"))?;
+                Ok(r)
+            };
+            let mut bad = vec![];
+            let mut n = 0u64;
+            for t in &texts {
+                let ts = String::from_utf8(t.clone()).unwrap();
+                let mut doc = b"<a>".to_vec();
+                doc.extend_from_slice(t);
+                doc.extend_from_slice(b"</a>");
+                n += 1;
+                let plain = !t.iter().any(|&c| c == b'<' || c == b'&');
+                match dec(&doc) {
+                    Ok(s) => {
+                        if !plain || s != ts {
+                            if bad.len() < 6 { bad.push(json!({"kind": "decode", "text": ts, "got": s})); }
+                        }
+                    }
+                    Err(e) => {
+                        if plain && bad.len() < 6 { bad.push(json!({"kind": "decode-refused", "text": ts, "err": e})); }
+                    }
+                }
+                let mut buf = Vec::new();
+                let mut ser = Serializer::new(&mut buf);
+                n += 1;
+                if ser.content("a", ts.as_str()).is_err() {
+                    if bad.len() < 6 { bad.push(json!({"kind": "encode-error", "text": ts})); }
+                    continue;
+                }
+                let inner = &buf[3..buf.len() - 4];
+                let mut wf = buf.starts_with(b"<a>") && buf.ends_with(b"</a>") && !inner.contains(&b'<') && !inner.contains(&b'>');
+                let mut i = 0;
+                while i < inner.len() {
+                    if inner[i] == b'&' {
+                        let rest = &inner[i..];
+                        if !([&b"&lt;"[..], &b"&gt;"[..], &b"&amp;"[..], &b"&quot;"[..], &b"&apos;"[..]].iter().any(|e| rest.starts_with(e))) { wf = false; }
+                    }
+                    i += 1;
+                }
+                let back = dec(&buf);
+                if !wf || back.as_deref() != Ok(ts.as_str()) {
+                    if bad.len() < 6 { bad.push(json!({"kind": "encode", "text": ts, "encoded": String::from_utf8_lossy(&buf), "back": format!("{back:?}")})); }
+                }
+            }
+            // XML meaning of CDATA / comments / text outside the root
+            let mut meaning = vec![];
+            for (doc, want) in [("<a>x<![CDATA[y]]></a>", Some("xy")), ("<a><![CDATA[y]]></a>", Some("y")), ("<a>x<!--c-->y</a>", Some("xy")),
+                                ("<a>x</a>x", None), ("<a>x</a>&", None), ("x<a>x</a>", None), ("<a>x</a><b/>", None), ("<a>x</a> \n", Some("x")),
+                                ("<a>&lt;&#65;&#x41;&amp;</a>", Some("<AA&"))] {
+                let got = dec(doc.as_bytes());
+                let ok = match (want, &got) { (Some(w), Ok(g)) => w == g, (None, Err(_)) => true, (Some(_), Err(_)) => true, _ => false };
+                meaning.push(json!({"doc": doc, "want": want, "got": format!("{got:?}"), "ok": ok}));
+            }
+            json!({"evaluations": n, "bad": bad, "meaning": meaning})
+        }
         "error_status" => {
             let c = s3s::S3ErrorCode::from_bytes(args[0].as_bytes());
             json!({"known": c.is_some(), "status": c.and_then(|c| c.status_code()).map(|s| s.as_u16())})
